@@ -261,4 +261,59 @@ pub mod vx_export {
         let ls = |s: &AzksElementSet| s.iter().map(|e| e.label).collect::<Vec<_>>();
         ((ls(&la), ls(&ra)), (ls(&lu), ls(&ru)), lcp_a, lcp_u, cp_a, cp_u, is_sorted_variant)
     }
+
+    // ---- C16: a database that can be told to reject writes
+    use crate::storage::types::{KeyData, ValueState, ValueStateRetrievalFlag};
+    use crate::storage::{DbSetState, Storable};
+    use crate::errors::StorageError;
+    use std::collections::HashMap;
+    use std::sync::atomic::{AtomicBool, Ordering};
+    use std::sync::Arc;
+
+    #[derive(Clone)]
+    pub struct RejectingDb { inner: AsyncInMemoryDatabase, reject: Arc<AtomicBool> }
+    #[async_trait::async_trait]
+    impl Database for RejectingDb {
+        async fn set(&self, record: DbRecord) -> Result<(), StorageError> {
+            if self.reject.load(Ordering::SeqCst) { return Err(StorageError::Connection("write rejected".to_string())); }
+            self.inner.set(record).await
+        }
+        async fn batch_set(&self, records: Vec<DbRecord>, state: DbSetState) -> Result<(), StorageError> {
+            if self.reject.load(Ordering::SeqCst) { return Err(StorageError::Connection("write rejected".to_string())); }
+            self.inner.batch_set(records, state).await
+        }
+        async fn get<St: Storable>(&self, id: &St::StorageKey) -> Result<DbRecord, StorageError> { self.inner.get::<St>(id).await }
+        async fn batch_get<St: Storable>(&self, ids: &[St::StorageKey]) -> Result<Vec<DbRecord>, StorageError> { self.inner.batch_get::<St>(ids).await }
+        async fn get_user_data(&self, username: &AkdLabel) -> Result<KeyData, StorageError> { self.inner.get_user_data(username).await }
+        async fn get_user_state(&self, username: &AkdLabel, flag: ValueStateRetrievalFlag) -> Result<ValueState, StorageError> { self.inner.get_user_state(username, flag).await }
+        async fn get_user_state_versions(&self, usernames: &[AkdLabel], flag: ValueStateRetrievalFlag) -> Result<HashMap<AkdLabel, (u64, AkdValue)>, StorageError> {
+            self.inner.get_user_state_versions(usernames, flag).await
+        }
+    }
+
+    /// C16 witness: through ONE cached storage manager, write a record that the database REJECTS (path 0: set, 1: batch_set,
+    /// 2: transaction commit), then read it back through the manager and directly from the database.
+    /// Returns (epoch the manager's read reports, epoch the database holds): they must be equal.
+    pub async fn c16_rejected_write(path: u8) -> Result<(u64, u64), AkdError> {
+        let reject = Arc::new(AtomicBool::new(false));
+        let db = RejectingDb { inner: AsyncInMemoryDatabase::new(), reject: reject.clone() };
+        let m = StorageManager::new(db.clone(), None, None, None);
+        m.set(DbRecord::Azks(Azks { latest_epoch: 1, num_nodes: 1 })).await.map_err(AkdError::Storage)?;
+        let newer = DbRecord::Azks(Azks { latest_epoch: 2, num_nodes: 1 });
+        reject.store(true, Ordering::SeqCst);
+        let w = match path {
+            0 => m.set(newer).await,
+            1 => m.batch_set(vec![newer]).await,
+            _ => {
+                if !m.begin_transaction() { return Err(AkdError::TestErr("no txn".to_string())); }
+                m.set(newer).await.map_err(AkdError::Storage)?;
+                m.commit_transaction().await.map(|_| ())
+            }
+        };
+        if w.is_ok() { return Err(AkdError::TestErr("the write was not rejected".to_string())); }
+        reject.store(false, Ordering::SeqCst);
+        let via_manager = match m.get::<Azks>(&crate::append_only_zks::DEFAULT_AZKS_KEY).await.map_err(AkdError::Storage)? { DbRecord::Azks(a) => a.latest_epoch, _ => 0 };
+        let in_db = match db.get::<Azks>(&crate::append_only_zks::DEFAULT_AZKS_KEY).await.map_err(AkdError::Storage)? { DbRecord::Azks(a) => a.latest_epoch, _ => 0 };
+        Ok((via_manager, in_db))
+    }
 }
